@@ -50,7 +50,13 @@ type recorder struct {
 
 var rec = &recorder{}
 
+// recQuiet: during a "quiet" load nothing is recorded (the run is judged by liveness only, at full request rate)
+var recQuiet int32
+
 func (r *recorder) add(m map[string]interface{}) {
+	if atomic.LoadInt32(&recQuiet) != 0 {
+		return
+	}
 	r.mu.Lock()
 	m["seq"] = len(r.events) + 1
 	m["ts"] = time.Now().UnixMicro() % 100000000
@@ -340,6 +346,7 @@ type step struct {
 	Users   []string `json:"users"`
 	Pws     []string `json:"pws"`
 	Vias    []string `json:"vias"`
+	Quiet   bool     `json:"quiet"`
 	// hup
 	Cfg string `json:"cfg"`
 }
@@ -1004,6 +1011,10 @@ func (r *runner) free() {
 
 // load: seeded random concurrent clients, no gates.
 func (r *runner) load(s step) {
+	if s.Quiet {
+		atomic.StoreInt32(&recQuiet, 1)
+		defer atomic.StoreInt32(&recQuiet, 0)
+	}
 	var wg sync.WaitGroup
 	for i := 0; i < s.Clients; i++ {
 		wg.Add(1)
